@@ -114,6 +114,8 @@ PROBES.append((re.compile(r"^ad::(AuthenticatorData::from_slice|AttestedCredenti
 PROBES.insert(0, (re.compile(r"^ad::AuthenticatorData::(new|set_\w+)::"), "authdata-built",
                   ["%02x|%d|%d|%s" % (f, a, e, o) for o in ("fae", "afe", "aef", "f") for (a, e) in ((0, 0), (1, 0), (0, 1), (1, 1))
                    for f in (0x00, 0x01, 0x05, 0x40, 0x80, 0xc5)]))
+# the verified table checker says the table and the rule list disagree: the enumeration names a domain that shows it
+PROBES.insert(0, (re.compile(r"^psl::compiled-run"), "psl-enumerate", ["/repo/public-suffix/public_suffix_list.dat"]))
 PROBES.insert(0, (re.compile(r"^cosek::"), "cose-der", ["32,32", "31,32", "32,33", "0,32", "32,0", "64,64"]))
 # a getInfo response whose transports list (key 0x09) declares 2^26 elements and ends there: 7 bytes of input
 PROBES.insert(0, (re.compile(r"^serdecap::(PossiblyUnknown|IgnoreUnknown)"), "cbor-get-info-response", ["a1099a04000000"]))
